@@ -10,11 +10,12 @@ import (
 )
 
 func init() {
-	Explanations["C19"] = "Decides structural necessary conditions of 'pruning removes only old block bodies and never breaks the node': (R1) the store's prune step only rewrites the Blocks record of the given id as (header, nil body, nil supplement) — it calls the block writer with two nil constants and no other bucket writer — and is invoked only by the Manager's pruning method with ids taken from the best-chain index at heights strictly below its argument, in a loop that stops at the first missing body; (R2) every use of a block body or supplement obtained from the store in Manager methods is guarded: supplement dereferences are nil-guarded (same check as C13.R3) and in the apply/update paths a failed lookup (ok == false) leads to an error return before the block is used; (R3) the minimum-reorg-index method stops its walk back from the tip at the first height whose body lookup (Store.Block, not Store.Header) fails; (R4) a reorg failing part-way — e.g. on a pruned body — is rolled back on every path (same check as C01.R3). NOT decided: equality of states with an unpruned twin, decoder/encoder agreement for header-only records, the exact minimum reorg index."
+	Explanations["C19"] = "Decides structural necessary conditions of 'pruning removes only old block bodies and never breaks the node': (R1) the store's prune step only rewrites the Blocks record of the given id as (header, nil body, nil supplement) — it calls the block writer with two nil constants and no other bucket writer — and is invoked only by the Manager's pruning method with ids taken from the best-chain index at heights strictly below its argument, in a loop that stops at the first missing body; (R2) every use of a block body or supplement obtained from the store in Manager methods is guarded: supplement dereferences are nil-guarded (same check as C13.R3) and in the apply/update paths a failed lookup (ok == false) leads to an error return before the block is used; (R3) the minimum-reorg-index method stops its walk back from the tip at the first height whose body lookup (Store.Block, not Store.Header) fails; (R4) a reorg failing part-way — e.g. on a pruned body — is rolled back on every path (same check as C01.R3). (R5) the store's ancestor-timestamp lookup does not go through the body-requiring block getter, so it still answers for pruned ancestors. NOT decided: equality of states with an unpruned twin, decoder/encoder agreement for header-only records, the exact minimum reorg index."
 
 	register(&Rule{ID: "C19.R1", Prop: "C19", Floor: 2, Doc: "prune rewrites only the block record as header-only, for best-chain ids below the given height", Run: c19r1})
 	register(&Rule{ID: "C19.R3", Prop: "C19", Floor: 1, Doc: "the minimum reorg index walks back only while block bodies exist", Run: c19r3})
 	register(&Rule{ID: "C19.R4", Prop: "C19", Floor: 2, Doc: "a reorg that fails on a missing body is rolled back (same check as C01.R3)", Run: c01r3})
+	register(&Rule{ID: "C19.R5", Prop: "C19", Floor: 1, Doc: "the store answers ancestor timestamps from header-only records (never through the body-requiring getter)", Run: c19r5})
 	register(&Rule{ID: "C19.R2", Prop: "C19", Floor: 5, Doc: "bodies/supplements from the store are used only after ok / non-nil tests", Run: c19r2})
 }
 
@@ -346,5 +347,40 @@ func c19r3(c *Ctx) {
 	}
 	if n == 0 {
 		ir.Fail("no parameterless Manager method returning a ChainIndex that walks the best-chain index found")
+	}
+}
+
+// c19r5: pruning keeps a header-only record of every block, and blocks far behind
+// the tip are exactly the ones that get pruned. The store's ancestor-timestamp
+// lookup (needed to validate and apply every new block before the Oak hardfork
+// height) must therefore be answerable from such a record: it must not go
+// through the body-requiring block getter, which reports "not found" for a
+// pruned block and would stop the pruned node from accepting any block.
+func c19r5(c *Ctx) {
+	blockGetter := c.P.Fn("chain", "DBStore", "Block")
+	storeBlock := c.P.Method("chain", "Store", "Block")
+	n := 0
+	vs := c.P.Views("chain", ir.ExpandOpt{Key: "store-ancestor", Stop: func(fn *types.Func) bool { return fn == blockGetter.Obj }})
+	for _, raw := range c.P.MethodsOf("chain", "DBStore") {
+		if !exported(raw) || raw.Type.Results == nil || raw.Type.Results.NumFields() != 2 {
+			continue
+		}
+		res := raw.Obj.Type().(*types.Signature).Results()
+		if !ir.IsNamed(res.At(0).Type(), "time", "Time") || !isBasicKind(types.Bool)(res.At(1).Type()) {
+			continue
+		}
+		f := vs.Of(raw)
+		n++
+		c.VisitGraph(f)
+		ob := c.Ob(f, "ancestor-timestamp-from-header-record", f.Body.Pos())
+		calls := f.CallsTo(true, blockGetter.Obj, storeBlock)
+		pos := ""
+		if len(calls) > 0 {
+			pos = c.P.Pos(calls[0].Pos())
+		}
+		ob.Check(len(calls) == 0, nil, "%s obtains the timestamp through the block getter at %s, which needs the block's body: for a pruned (header-only) ancestor it reports not-found, and a pruned node below the Oak height can no longer validate or apply any block", f.Name(), pos)
+	}
+	if n == 0 {
+		ir.Fail("the store's ancestor-timestamp method (exported DBStore method returning (time.Time, bool)) not found")
 	}
 }
